@@ -11,6 +11,7 @@ from . import core
 
 ALPHABETS = ['A1', 'A2', 'A3', 'A4', 'A5', 'A6', 'A7', 'A8', 'A9', 'B1', 'B2', 'B3', 'B4', 'H1', 'H2', 'H3', 'R1', 'R2', 'R3', 'W1']
 DEEP = ['S1']           # a small alphabet of containers, laziness and indentation read two lines deeper (5 / 6 lines)
+DEEP_MORE = ['S2', 'S3', 'S4', 'S5']    # the same for fences, setext underlines, nested lists and HTML blocks (C03 and C13 only)
 SMALL = ['R4']          # small alphabets read one line deeper (a multi-line title needs four lines to swallow a block)
 
 # classes of input on which the implementation is recorded to deviate (known_findings.json); decided by the specification (tags)
@@ -37,7 +38,7 @@ def alphabet_size(cfg):
     return len(re.findall(r'"(?:[^"\\]|\\.)*"', body))
 
 
-def documents(ck, depth, laws=True, only=None):
+def documents(ck, depth, laws=True, only=None, deep_more=False):
     """All documents of <= depth lines over every alphabet."""
     jobs = []
     for a in (only or ALPHABETS):
@@ -51,7 +52,7 @@ def documents(ck, depth, laws=True, only=None):
     for a in SMALL:
         jobs.append(('BlockParse%s_%d.cfg' % (a, depth + 1), '-'))
     if only is None:
-        for a in DEEP:             # two lines deeper, one TLC process per first line
+        for a in DEEP + (DEEP_MORE if deep_more else []):             # two lines deeper, one TLC process per first line
             cfg = 'BlockParse%s_%d.cfg' % (a, depth + 2)
             for k in range(1, alphabet_size(cfg) + 1):
                 jobs.append((cfg, str(k)))
